@@ -2,4 +2,6 @@
 
 package journal
 
-func verifWrap(fs []func(*Day) error) []func(*Day) error { return fs }
+func verifWrap(fs []func(*Day) error, days int) []func(*Day) error { return fs }
+
+func verifEnd(err error) {}
